@@ -41,10 +41,14 @@ struct Msg {
     body: Vec<u8>,
     /// what parsing this head must give (None = Ok)
     head_err: Option<HttpError>,
+    /// the request carries `connection: close`. The library ignores it today; honouring it
+    /// on the FINAL response (close header + write side shut) would be as right - on an
+    /// interim response never.
+    close_req: bool,
 }
 
 fn msg(head: &str, path: &'static str, decl: Decl, expect: bool, body: &[u8]) -> Msg {
-    Msg { head: head.as_bytes().to_vec(), path, decl, expect, body: body.to_vec(), head_err: None }
+    Msg { head: head.as_bytes().to_vec(), path, decl, expect, body: body.to_vec(), head_err: None, close_req: false }
 }
 
 fn big_body() -> Vec<u8> {
@@ -64,6 +68,8 @@ fn scripts() -> Vec<(&'static str, Vec<Msg>)> {
     let big = msg("POST /h HTTP/1.1\r\ncontent-length: 20000\r\n\r\n", "/h", Decl::Known(20_000), false, &big_body());
     let expect_unknown = msg("POST /i HTTP/1.1\r\nexpect: 100-continue\r\n\r\n", "/i", Decl::Unknown, true, b"tail");
     let zero = msg("POST /j HTTP/1.1\r\ncontent-length: 0\r\n\r\n", "/j", Decl::NoBody, false, b"");
+    let mut expect_close = msg("PUT /k HTTP/1.1\r\ncontent-length: 5\r\nconnection: close\r\nexpect: 100-continue\r\n\r\n", "/k", Decl::Known(5), true, b"hello");
+    expect_close.close_req = true;
     vec![
         ("nothing", vec![]),
         ("bodiless", vec![get.clone()]),
@@ -77,7 +83,8 @@ fn scripts() -> Vec<(&'static str, Vec<Msg>)> {
         ("gzip", vec![gzip]),
         ("bigger-than-buffer", vec![big, get.clone()]),
         ("expect+unknown", vec![expect_unknown]),
-        ("two-bodiless", vec![get.clone(), zero, get]),
+        ("two-bodiless", vec![get.clone(), zero, get.clone()]),
+        ("expect+connection-close", vec![expect_close, get]),
     ]
 }
 
@@ -212,6 +219,9 @@ struct Model {
     /// the last call was a body read that failed part-way: the documentation does not say
     /// whether the read side is then back at `Head` or shut down (the stream is dead either way)
     read_state_open: bool,
+    /// the last call wrote the final (non-5xx) response to a request that asked for
+    /// `connection: close`: closing the write side with it is accepted, not required
+    close_allowed: bool,
 }
 
 
@@ -359,6 +369,9 @@ impl Model {
                         let (code, body) = resp_code_body(sel);
                         if code / 100 != 1 {
                             self.write = MWrite::None;
+                            if code / 100 != 5 && self.mi > 0 && self.msgs[self.mi - 1].close_req {
+                                self.close_allowed = true;
+                            }
                         }
                         if code / 100 == 5 {
                             self.write = MWrite::Shutdown;
@@ -493,7 +506,7 @@ fn run_program(script_idx: usize, prog: &[OpK], interleaved: bool, gated: bool) 
         while feeder.feed() {}
     }
     let mut conn = HttpConn::new(addr(), async_net::TcpStream::sim_from_conn(id));
-    let mut model = Model { read: MRead::Head, write: MWrite::None, msgs: msgs.clone(), mi: 0, at_eof: false, fin_sent: false, last_max: 0, ignore_expect: false, read_state_open: false };
+    let mut model = Model { read: MRead::Head, write: MWrite::None, msgs: msgs.clone(), mi: 0, at_eof: false, fin_sent: false, last_max: 0, ignore_expect: false, read_state_open: false, close_allowed: false };
     let mut wire_seen = 0usize;
     let ctx = |i: usize| format!("script '{sname}', program {:?}, at op #{i} {:?}", prog, prog[i]);
     for (i, op) in prog.iter().enumerate() {
@@ -582,12 +595,24 @@ fn run_program(script_idx: usize, prog: &[OpK], interleaved: bool, gated: bool) 
             return Outcome::fail("C05.call_result", format!("{}: returned {got}, the documented state prescribes {want}", ctx(i)));
         }
         // wire
-        if let Some(d) = wire_diff(&wire_exp, delta) {
+        let close_allowed = std::mem::take(&mut model.close_allowed);
+        if let Some(d) = wire_diff(&wire_exp, delta, close_allowed) {
             let clause = if matches!(exp, Exp::Err(_)) && wire_exp == Wire::Nothing { "C05.misuse_leaves_wire_alone" } else { "C05.wire_bytes" };
             return Outcome::fail(clause, format!("{}: {d}; wire delta: {}", ctx(i), gen::show(delta)));
         }
         wire_seen = wire_all.len();
         // states
+        if close_allowed && conn.write_state == WriteState::Shutdown {
+            // the final response closed the connection as the request asked: then it must
+            // have said so, and the model follows
+            let (rs, _) = parse_transcript(delta);
+            if !rs.last().map(|r| r.header_all("connection") == vec!["close"]).unwrap_or(false) {
+                return Outcome::fail("C05.wire_bytes", format!("{}: the write side was shut after a final response that does not carry `connection: close`", ctx(i)));
+            }
+            gen::count("probe.close_honoured");
+            model.write = MWrite::Shutdown;
+            model.fin_sent = true;
+        }
         if model.read_state_open {
             model.read_state_open = false;
             if model.read == MRead::Head && conn.read_state == ReadState::Shutdown {
@@ -669,7 +694,7 @@ fn adopt(model: &mut Model, conn: &HttpConn, _msgs: &[Msg]) {
     }
 }
 
-fn wire_diff(exp: &Wire, delta: &[u8]) -> Option<String> {
+fn wire_diff(exp: &Wire, delta: &[u8], close_allowed: bool) -> Option<String> {
     match exp {
         Wire::Nothing => {
             if delta.is_empty() {
@@ -689,7 +714,7 @@ fn wire_diff(exp: &Wire, delta: &[u8]) -> Option<String> {
         Wire::ContinueThen(rest) => {
             let (rs, _) = parse_transcript(delta);
             match rs.first() {
-                Some(r) if r.code == 100 => wire_diff(rest, &delta[r.end..]),
+                Some(r) if r.code == 100 => wire_diff(rest, &delta[r.end..], close_allowed),
                 _ => Some("expected a `100 Continue` first".to_string()),
             }
         }
@@ -714,7 +739,9 @@ fn wire_diff(exp: &Wire, delta: &[u8]) -> Option<String> {
                 return Some(format!("response {} with {} body bytes, expected {} with {}", r.code, r.body.len(), code, body.len()));
             }
             let close = r.header_all("connection");
-            if (*code / 100 == 5) != (close == vec!["close"]) {
+            let has_close = close == vec!["close"];
+            let ok = if *code / 100 == 5 { has_close } else if close_allowed { has_close || close.is_empty() } else { close.is_empty() };
+            if !ok {
                 return Some(format!("connection header {close:?} on a {code} response"));
             }
             None
@@ -787,12 +814,12 @@ fn sampled(cfg: &RunCfg) -> Outcome {
 }
 
 pub fn spec() -> PropertySpec {
-    let n3 = 13 * (15 + 225 + 3375 + 50_625) as u64;
-    let n4 = 13 * (15 + 225 + 3375 + 50_625 + 759_375) as u64;
+    let n3 = 14 * (15 + 225 + 3375 + 50_625) as u64;
+    let n4 = 14 * (15 + 225 + 3375 + 50_625 + 759_375) as u64;
     PropertySpec {
         id: "C05",
         level: "exploration",
-        rule: "HttpConn methods called directly on a connection whose stream is the simulated TcpStream. Enumerated stage: EVERY program of depth <= 4 (quick) / <= 5 (thorough) over 15 operations {read_request, read_body_to_vec, read_body_to_file(max in {0, len-1, len, 2^40, u64::MAX}), write_http_continue, write_response(102 | 200 | 404 | 500 | non-writable kind | conflicting header), shutdown_write} x 13 client scripts {nothing+FIN, bodiless, small known body, known body + pipelined request, Expect+body, unknown-length, chunked, truncated body, garbage, gzip, body larger than the 8 KiB buffer, Expect+unknown length, three pipelined}, client pre-written + FIN. Sampled stage: programs of depth 1-7 with interleaved delivery (short reads, spurious Pending, bytes fed only when a call waits) and clients that withhold the body until they see 100 Continue; the sampled programs also contain write_response of a file body shorter than its declared length (fails after the head went out: some error, a proper prefix on the wire, write side shut down, everything afterwards refused). Oracle: explicit-state reference model (read state x write state x stream cursor) predicting result, states, is_ready(), write-side shutdown and the bytes on the wire after every call; misuse must leave the wire unchanged. distinct = (script, program, delivery mode).",
+        rule: "HttpConn methods called directly on a connection whose stream is the simulated TcpStream. Enumerated stage: EVERY program of depth <= 4 (quick) / <= 5 (thorough) over 15 operations {read_request, read_body_to_vec, read_body_to_file(max in {0, len-1, len, 2^40, u64::MAX}), write_http_continue, write_response(102 | 200 | 404 | 500 | non-writable kind | conflicting header), shutdown_write} x 14 client scripts {nothing+FIN, bodiless, small known body, known body + pipelined request, Expect+body, unknown-length, chunked, truncated body, garbage, gzip, body larger than the 8 KiB buffer, Expect+unknown length, three pipelined, Expect + Connection: close}, client pre-written + FIN. Sampled stage: programs of depth 1-7 with interleaved delivery (short reads, spurious Pending, bytes fed only when a call waits) and clients that withhold the body until they see 100 Continue; the sampled programs also contain write_response of a file body shorter than its declared length (fails after the head went out: some error, a proper prefix on the wire, write side shut down, everything afterwards refused). Oracle: explicit-state reference model (read state x write state x stream cursor) predicting result, states, is_ready(), write-side shutdown and the bytes on the wire after every call; misuse must leave the wire unchanged. distinct = (script, program, delivery mode).",
         scenarios: vec![
             Scenario { name: "c05.enumerated", property: "C05", func: enumerated, runs_quick: n3, runs_thorough: n4, doc: "all programs up to the depth bound" },
             Scenario { name: "c05.sampled", property: "C05", func: sampled, runs_quick: 1_000_000, runs_thorough: 20_000_000, doc: "deeper programs, interleaved delivery" },
